@@ -621,8 +621,9 @@ class Parser:
                 flags |= self.RE_FLAG_MAP[flag]
         try:
             return RegexLiteral(value=re.compile(pattern, flags))
-        except (re.error, ValueError) as err:
+        except (re.error, ValueError, OverflowError) as err:
             # ValueError for incompatible flags, like an inline (?u) with /a.
+            # OverflowError for a repetition count that is too large.
             raise JSONPathSyntaxError(
                 f"invalid regular expression, {err}", token=stream.current
             ) from err
